@@ -11,6 +11,7 @@ struct IUnknown; // Workaround for "combaseapi.h(229): error C2187: syntax error
 #include <windows.h>
 #else
 #include <stdlib.h>
+#include <errno.h>
 #include <unistd.h>
 #include <sys/ioctl.h>
 #include <sys/types.h>
@@ -649,7 +650,17 @@ void Socket_::skip(int n)
 
 bool Socket_::disconnected()
 {
-	return _handle < 0 || _error != 0 || (waitInput(0) && available() <= 0);
+	if (_handle < 0 || _error != 0)
+		return true;
+#ifndef _WIN32
+	// one observation: asking "readable?" and then "how many bytes?" reported a closed peer
+	// when another thread read the pending bytes between the two questions
+	char c;
+	int n = (int)recv(_handle, &c, 1, MSG_PEEK | MSG_DONTWAIT);
+	return n == 0 || (n < 0 && errno != EAGAIN && errno != EWOULDBLOCK && errno != EINTR);
+#else
+	return waitInput(0) && available() <= 0;
+#endif
 }
 
 bool Socket_::waitInput(double t)
